@@ -131,6 +131,7 @@ Lemma frame_so_destroy o : pres (Rframe sd) (so_destroy sd o). Proof. apply (fp_
 Lemma frame_so_expire o : pres (Rframe sd) (so_expire cfg sd o). Proof. apply fp_so_expire; frame_inst. Qed.
 Lemma frame_so_sync o : pres (Rframe sd) (so_sync cfg sd o). Proof. apply fp_so_sync; frame_inst. Qed.
 Lemma frame_so_sync_update o : pres (Rframe sd) (so_sync_update cfg sd o). Proof. apply fp_so_sync_update; frame_inst. Qed.
+Lemma frame_so_pickle o : pres (Rframe sd) (so_pickle cfg sd o). Proof. apply fp_so_pickle; frame_inst. Qed.
 
 Definition frame_run_op :=
   fp_run_op cfg sd (Rframe sd) (Rframe_refl sd) (Rframe_trans sd) frame_read frame_insert frame_update frame_update_cols frame_delete frame_upd frame_new frame_cch
